@@ -799,7 +799,10 @@ class MaterialIndexer(Indexer):
                     for i, j in other: data[phase_indexer(i)] = j
                 else:
                     self._expand_phases(other._phases)
-                    self.data.copy_like(other.data)
+                    self.empty()
+                    data = self.data
+                    phase_indexer = self._phase_indexer
+                    for i, j in other: data[phase_indexer(i)] = j
             else:
                 self.empty()
                 other_data = other.data
@@ -811,7 +814,9 @@ class MaterialIndexer(Indexer):
                     for i, j in other: data[phase_indexer(i)] += j
                 else:
                     self._expand_phases(other._phases)
-                    data[:, left_index] = other_data[:, right_index]
+                    data = self.data
+                    phase_indexer = self._phase_indexer
+                    for i, j in other: data[phase_indexer(i), left_index] = j[right_index]
                     
     
     def _expand_phases(self, other_phases=None):
